@@ -647,6 +647,18 @@ def run(ctx):
                 ns, ms, target, template, mask, tmask, R = _make(rng, nd, score, like=(ns2, ms))
                 pe, splits = True, {ax: k_}
                 ctx.count("split:tile border within the margin of the target's end")
+            if not multi and it % 5 == 4:
+                # without Fourier padding the arrays have the (sub-)volume's extent rounded up to a fast FFT length: an axis whose
+                # extent is at least 2 below its fast length (37, 41, 43, 46, 47, 51, 53, 57 ..) while its tiles are not, or are by
+                # another amount, shows any crop that forgets which part of that array is the convolution
+                ax = int(rng.integers(0, nd))
+                ns2 = list(ns)
+                ns2[ax] = int(rng.choice([37, 41, 43, 46, 47, 51, 53]))
+                if nd == 3:
+                    ns2 = [min(n_, 14) if i != ax else n_ for i, n_ in enumerate(ns2)]
+                ns, ms, target, template, mask, tmask, R = _make(rng, nd, score, like=(ns2, ms))
+                pad, splits = False, {ax: int(rng.integers(2, 4))}
+                ctx.count("split:axis extent well below its fast FFT length, no Fourier padding")
             schedule = (1, 1)
             if multi:
                 schedule = plan[it // 2]
